@@ -188,6 +188,7 @@ func HarnessHostileServer() {
 
 type C struct {
 	Inc func(ctx context.Context, a int) (int, error)
+	Sub func(ctx context.Context) (<-chan int64, error)
 }
 
 // HarnessHostileClient: a fake server sends hostile frames to a client that has a
@@ -232,4 +233,92 @@ func HarnessHostileClient() {
 	closer()
 	verif.Quiesce()
 	verif.Reach("hostile-client-done")
+}
+
+// HarnessHostileClientLiveChannel: as HarnessHostileClient, but the client holds a
+// live subscription (channel id 7) when the hostile frame arrives, so the built-in
+// channel methods get past their "unknown channel" checks. Frames that are not a
+// well-formed value/close for that channel must neither crash the client nor
+// disturb the stream.
+func HarnessHostileClientLiveChannel() {
+	l := verif.ListenWS()
+	// hostile frame aimed at the live channel: method x params shape with the live id first
+	method := []string{"xrpc.ch.val", "xrpc.ch.close"}[verif.Choice("method", 2)]
+	shape := verif.Choice("shape", 5)
+	var params interface{}
+	wellFormedValue, wellFormedClose := false, false
+	switch shape {
+	case 0:
+		params = []interface{}{7}
+		wellFormedClose = method == "xrpc.ch.close"
+	case 1:
+		params = []interface{}{7, xValue(verif.Choice("xkind", len(xKinds)))}
+	case 2:
+		params = []interface{}{7, 5, 6}
+		wellFormedValue = method == "xrpc.ch.val"
+		wellFormedClose = method == "xrpc.ch.close"
+	case 3:
+		params = []interface{}{7.5}
+	case 4:
+		params = []interface{}{"7"}
+	}
+	if shape == 1 {
+		wellFormedClose = method == "xrpc.ch.close"
+	}
+	verif.Class("live-channel,method=" + method + ",shape=" + string(rune('0'+shape)))
+	frame, _ := json.Marshal(map[string]interface{}{"jsonrpc": "2.0", "method": method, "params": params})
+	go func() {
+		verif.Daemon()
+		pc := l.Accept()
+		for {
+			b, ok := pc.Recv()
+			if !ok {
+				return
+			}
+			var rq struct {
+				ID     interface{}       `json:"id"`
+				Method string            `json:"method"`
+				Params []json.RawMessage `json:"params"`
+			}
+			if json.Unmarshal(b, &rq) != nil || rq.ID == nil {
+				continue
+			}
+			if rq.Method == "H.Sub" {
+				rb, _ := json.Marshal(map[string]interface{}{"jsonrpc": "2.0", "id": rq.ID, "result": 7})
+				pc.Send(rb)
+				pc.Send([]byte(`{"jsonrpc":"2.0","method":"xrpc.ch.val","params":[7,11]}`))
+				pc.Send(frame)
+				pc.Send([]byte(`{"jsonrpc":"2.0","method":"xrpc.ch.val","params":[7,12]}`))
+				pc.Send([]byte(`{"jsonrpc":"2.0","method":"xrpc.ch.close","params":[7]}`))
+				continue
+			}
+			var a int64
+			json.Unmarshal(rq.Params[0], &a)
+			rb, _ := json.Marshal(map[string]interface{}{"jsonrpc": "2.0", "id": rq.ID, "result": a + 1})
+			pc.Send(rb)
+		}
+	}()
+	var c C
+	closer, err := jsonrpc.NewMergeClient(context.Background(), l.URL(), "H", []interface{}{&c}, nil)
+	verif.Assert(err == nil, "client-created")
+	ch, serr := c.Sub(context.Background())
+	verif.Assert(serr == nil && ch != nil, "subscription-established")
+	var got []int64
+	for v := range ch {
+		got = append(got, v)
+	}
+	verif.Assert(!verif.Crashed(), "process-survives")
+	if !wellFormedValue && !wellFormedClose {
+		if shape == 1 && method == "xrpc.ch.val" {
+			// [7, x]: a value frame whose value may or may not decode into the element type
+			verif.Assert(len(got) >= 2 && got[0] == 11 && got[len(got)-1] == 12, "stream-survives-hostile-value-frame")
+		} else {
+			verif.Assert(len(got) == 2 && got[0] == 11 && got[1] == 12, "stream-undisturbed-by-malformed-builtin-frame")
+		}
+	}
+	v, cerr := c.Inc(context.Background(), 1)
+	verif.Assert(cerr == nil && v == 2, "later-call-answered")
+	closer()
+	verif.Quiesce()
+	verif.Reach("hostile-client-live-channel-done")
 }
